@@ -68,6 +68,7 @@ PROPS = {
             "text comparisons and filters are pure total functions of their arguments (filter of the node's own subtree)",
             "attribute lists have fewer than 2^64 entries (hypothesis of C13_shallow*)",
         ],
+    },
     "C04": {
         "suites": [("forest", 300, 6000)],
         "proved_scope": "invariant Forest.inv defined (decidable); proved: holds initially, preserved by set_text_consolidation; value updates never create, lose or reorder a handle. The invariant is additionally evaluated on the model state after every step of every correspondence history and compared with an independent validator on the real forest",
